@@ -89,7 +89,9 @@ def corpus():
     return [{'what': 'exact', 'kind': 'single', 'model': 'xxz', 'L': 4, 'seed': 1, 'dt': [0.0, 0.2], 'steps': 1, 'Dmax': 2, 'sectors': True, 'qt': -2},
             {'what': 'exact', 'kind': 'two', 'model': 'xxz', 'L': 5, 'seed': 1, 'dt': [0.0, 0.2], 'steps': 1, 'Dmax': 2, 'sectors': True, 'qt': -3},
             {'what': 'exact', 'kind': 'single', 'model': 'xxz', 'L': 4, 'seed': 1, 'dt': [0.0, 0.2], 'steps': 1, 'Dmax': 2, 'sectors': True, 'qt': 0},
-            {'what': 'exact', 'kind': 'two', 'model': 'xxz', 'L': 4, 'seed': 1, 'dt': [0.0, 0.2], 'steps': 1, 'Dmax': 2, 'sectors': True, 'qt': -2}]
+            {'what': 'exact', 'kind': 'two', 'model': 'xxz', 'L': 4, 'seed': 1, 'dt': [0.0, 0.2], 'steps': 1, 'Dmax': 2, 'sectors': True, 'qt': -2},
+            {'Dmax': 3, 'L': 5, 'dt': [0.0, 0.3], 'kind': 'single', 'model': 'xxz', 'sdtype': 'complex', 'sectors': True, 'seed': 590570279, 'steps': 2,
+             'what': 'reverse'}]
 
 
 def impl(case):
@@ -151,12 +153,23 @@ def impl(case):
             return {'skip': 'zero state'}
         numiter = int(max(a.size for a in psi.A)) + 2
         numeric = SR.numeric_ok(case, H, psi)
+        # is some bond of the right-orthonormalised start state rank deficient (bond dimension above the Schmidt rank of the cut)?
+        import copy as _copy
+        phi = _copy.deepcopy(psi)
+        phi.orthonormalize(mode='right')
+        dloc = len(H.qd)
+        rankdef = False
+        for k in range(1, L):
+            sv = np.linalg.svd((v0 / n0).reshape(dloc ** k, -1), compute_uv=False)
+            if int(np.sum(sv > 1e-10)) < int(phi.bond_dims[k]):
+                rankdef = True
         r1, run1 = SR.run_recorded(EV, ptn.integrate_local_singlesite, H, psi, dt, numiter, numeric, dt, case['steps'], numiter_lanczos=numiter)
         mid = float(np.linalg.norm(G.mps_dense(psi.A)))
         r2, run2 = SR.run_recorded(EV, ptn.integrate_local_singlesite, H, psi, -dt, numiter, numeric, -dt, case['steps'], numiter_lanczos=numiter)
         v2 = G.mps_dense(psi.A)
         return {'err': float(np.linalg.norm(r2 * v2 - v0 / n0)), 'ret': float(np.real(r1)), 'ret2': float(np.real(r2)), 'norm0': n0, 'mid': mid,
-                'imag_dt': bool(dt.real == 0), 'dims': [int(x) for x in psi.bond_dims], 'runs': [run1, run2], 'H': SR.enc_mpo(H, numeric)}
+                'imag_dt': bool(dt.real == 0), 'dims': [int(x) for x in psi.bond_dims], 'runs': [run1, run2], 'H': SR.enc_mpo(H, numeric),
+                'rankdef': bool(rankdef)}
     except Exception as e:
         import traceback
         tb = traceback.extract_tb(e.__traceback__)[-1]
@@ -193,6 +206,10 @@ def finding_key(case, r, msgs):
     """known finding: projector splitting is not exact in charge sectors whose minimal bonds are neither left- nor right-complete"""
     if case['what'] == 'exact' and 'err' in r and len(msgs) == 1 and msgs[0].startswith('complete-manifold TDVP differs') and _mixed_kind(case, r):
         return 'tdvp-%ssite-mixed-complete-sector' % ('single' if case['kind'] == 'single' else 'two')
+    # known finding K5: with a rank-deficient bond (bond dimension above the Schmidt rank of the cut, which orthonormalize keeps on the
+    # side it does not sweep from) the first sweep evolves in a larger tangent space than the return sweep: not reversible (1e-4)
+    if case['what'] == 'reverse' and r.get('rankdef') and len(msgs) == 1 and msgs[0].startswith('forward/backward evolution does not return'):
+        return 'tdvp-singlesite-reversibility-rank-deficient-bond'
     return None
 
 
